@@ -351,7 +351,10 @@ def x_floor(m, x):
     if m.mode == 'float':
         return float(math.floor(x)) if math.isfinite(x) else x
     if isinstance(x, Term):
-        return Term('to_real', (Term('to_int', (x,), 'I'),), 'R')
+        ti = Term('to_int', (x,), 'I')
+        if m.concretize:
+            return Fraction(m.concretize_int(ti))
+        return Term('to_real', (ti,), 'R')
     return Fraction(math.floor(x))
 
 
@@ -361,7 +364,10 @@ def x_ceil(m, x):
     if m.mode == 'float':
         return float(math.ceil(x)) if math.isfinite(x) else x
     if isinstance(x, Term):
-        return mk('neg', Term('to_real', (Term('to_int', (mk('neg', x),), 'I'),), 'R'))
+        ti = Term('to_int', (mk('neg', x),), 'I')
+        if m.concretize:
+            return Fraction(-m.concretize_int(ti))
+        return mk('neg', Term('to_real', (ti,), 'R'))
     return Fraction(math.ceil(x))
 
 
@@ -514,6 +520,8 @@ def x_rb_insert(m, insert_left, x, p, header):
     _rbset(m, x, 16, NULL)
     _rbset(m, x, 24, NULL)
     m.store(x, 0, 4)
+    if isinstance(insert_left, Term):
+        insert_left = 1 if m.decide(_boolarg(insert_left)) else 0
     if insert_left & 1:
         _rbset(m, p, 16, x)
         if p == header:
@@ -559,6 +567,52 @@ def x_rb_decrement(m, x):
         x = y
         y = _rb(m, y, 8)
     return y
+
+
+def x_rb_erase(m, z, header):
+    """unbalanced-BST version of std::_Rb_tree_rebalance_for_erase: unlink z, keep header.{parent,left,right} = root,
+    leftmost, rightmost; returns the node the caller destroys (z)"""
+    def replace(u, v):
+        up = _rb(m, u, 8)
+        if _rb(m, header, 8) == u:
+            _rbset(m, header, 8, v)
+        elif _rb(m, up, 16) == u:
+            _rbset(m, up, 16, v)
+        else:
+            _rbset(m, up, 24, v)
+        if v != NULL:
+            _rbset(m, v, 8, up if _rb(m, header, 8) != v else header)
+    zl, zr = _rb(m, z, 16), _rb(m, z, 24)
+    if zl == NULL:
+        replace(z, zr)
+    elif zr == NULL:
+        replace(z, zl)
+    else:
+        y = zr
+        while _rb(m, y, 16) != NULL:
+            y = _rb(m, y, 16)
+        if _rb(m, y, 8) != z:
+            replace(y, _rb(m, y, 24))
+            _rbset(m, y, 24, _rb(m, z, 24))
+            _rbset(m, _rb(m, y, 24), 8, y)
+        replace(z, y)
+        _rbset(m, y, 16, _rb(m, z, 16))
+        _rbset(m, _rb(m, y, 16), 8, y)
+    root = _rb(m, header, 8)
+    if root == NULL:
+        _rbset(m, header, 16, header)
+        _rbset(m, header, 24, header)
+    else:
+        _rbset(m, root, 8, header)
+        x = root
+        while _rb(m, x, 16) != NULL:
+            x = _rb(m, x, 16)
+        _rbset(m, header, 16, x)
+        x = root
+        while _rb(m, x, 24) != NULL:
+            x = _rb(m, x, 24)
+        _rbset(m, header, 24, x)
+    return z
 
 
 def _is_header(m, x):
@@ -633,6 +687,7 @@ def base_ext():
         '@_ZSt18_Rb_tree_incrementPSt18_Rb_tree_node_base': x_rb_increment,
         '@_ZSt18_Rb_tree_incrementPKSt18_Rb_tree_node_base': x_rb_increment,
         '@_ZSt18_Rb_tree_decrementPSt18_Rb_tree_node_base': x_rb_decrement,
+        '@_ZSt28_Rb_tree_rebalance_for_erasePSt18_Rb_tree_node_baseRS_': x_rb_erase,
         '@_ZNSt6chrono3_V212system_clock3nowEv': lambda m: 0, '@_ZNSt6chrono3_V212steady_clock3nowEv': lambda m: 0,
         '@__cxa_guard_acquire': lambda m, g: 1, '@__cxa_guard_release': x_noop,
         '@__cxa_pure_virtual': lambda m: (_ for _ in ()).throw(SafetyEvent('pure-virtual', 'pure virtual function called')),
